@@ -57,10 +57,12 @@ struct Ctx {
 };
 
 int tcmp(pconstpointer a, pconstpointer b, ppointer) { long x = (long)a, y = (long)b; return x < y ? -1 : x > y; }
+std::atomic<long> g_thr_done{0};   // harness-side: the body of a (possibly detached) thread has used its key for the last time
 ppointer thr_fn(ppointer arg) {
   PUThreadKey *k = (PUThreadKey *)arg;
   if (k) { p_uthread_set_local(k, malloc(8)); p_uthread_replace_local(k, malloc(8)); }
   (void)p_uthread_current();
+  g_thr_done.fetch_add(1);
   return NULL;
 }
 void *foreign(void *) { PUThread *me = p_uthread_current(); (void)me; p_uthread_ref(me); p_uthread_unref(me); return NULL; }
@@ -273,8 +275,13 @@ void run_episode(Ctx &x, const Ep &e) {
     if (e.a % 2 && vl::excluded("tls-key")) vl::stats().count("excluded_tls_key");
     bool joinable = e.b % 3 != 0;
     static const char *names[] = {NULL, "t", "quite-a-long-thread-name-here"};
-    PUThread *t = p_uthread_create(thr_fn, key, joinable ? TRUE : FALSE, names[e.c % 3]);
+    // c < 3: the three fixed names; otherwise a name of every length 1..44 (the platform's name limit, 16 with the terminator, lies inside)
+    string lname; if (e.c >= 3) { lname.assign((size_t)(1 + (e.c >= 1000 ? e.c - 1000 : e.c) % 44), 'n'); x.classes.insert(lname.size() == 15 || lname.size() == 16 || lname.size() == 17 ? "thread_name_at_the_platform_limit" : "thread_name_generated_length"); }
+    long done0 = g_thr_done.load();
+    PUThread *t = p_uthread_create(thr_fn, key, joinable ? TRUE : FALSE, e.c >= 3 ? lname.c_str() : names[e.c % 3]);
     if (t) { if (e.d % 2) { p_uthread_ref(t); p_uthread_unref(t); } if (joinable) p_uthread_join(t); p_uthread_unref(t); }
+    // a detached thread: its body must be through with the key before the key reference is given back (the harness's own obligation)
+    if (t && !joinable) for (int i = 0; i < 20000 && g_thr_done.load() == done0; i++) { struct timespec ts = {0, 1000000}; nanosleep(&ts, NULL); }
     if (!joinable) { for (int i = 0; i < 200 && va::live_count() > 0; i++) { struct timespec ts = {0, 1000000}; nanosleep(&ts, NULL); if (i > 20) break; } }
     if (key) { struct timespec ts = {0, 3000000}; if (!joinable) nanosleep(&ts, NULL); p_uthread_local_free(key); x.classes.insert("tls_key"); }
   } else if (k == "foreign") {
@@ -402,6 +409,17 @@ int run_generated() {
         vl::stats().record(text, true, vl::fnv1a(text));
         if (!o.verdict.empty()) { vl::report_failure(string("cycles_") + k, to_text(shown), "C20:" + o.klass + ": " + o.verdict, o.klass); failed++; }
       }
+    // thread names of every length 1..44, five cycles each
+    for (int len = 1; len <= 44; len++) {
+      if ((idx++ % nshards) != shard) continue;
+      Case c; for (int i = 0; i < 5; i++) { Ep e; e.kind = "thread"; e.a = 0; e.b = 1; e.c = 1000 + len - 1; e.d = 0; c.eps.push_back(e); }
+      Case shown; shown.eps.assign(c.eps.begin(), c.eps.begin() + 1);
+      string text = "# 5 identical cycles of:\n" + to_text(shown);
+      vl::set_current_case("cycles", to_text(c));
+      Outcome o = run_case(c);
+      vl::stats().record(text, true, vl::fnv1a(text));
+      if (!o.verdict.empty()) { vl::report_failure("cycles_thread_name", to_text(shown), "C20:" + o.klass + ": " + o.verdict, o.klass); failed++; }
+    }
   }
   return failed;
 }
